@@ -96,8 +96,13 @@ fn extra_engines(prop: &str, tier: Tier, seed: u64, planned: u64, first: &std::c
     let plan: Vec<(&str, u64, u32, &[&str], bool)> = match (prop, tier) {
         // (mode, scenarios, interpreter seeds per scenario, pre-emption rates, also without the prefetch feature)
         // c18all: one tiny value of every structure family per execution, so a data race anywhere is in reach
-        ("C18", Tier::Quick) => vec![("c18all", 1, 6, &["0.1"], false)],
-        ("C18", Tier::Thorough) => vec![("c18", 6, 24, &["0.01", "0.1", "0.5"], false), ("c18all", 3, 16, &["0.01", "0.5"], false)],
+        // c18big: rank/select structures large enough for their sampled search paths (3 kinds, by scenario index)
+        ("C18", Tier::Quick) => vec![("c18all", 1, 6, &["0.1"], false), ("c18big", 3, 3, &["0.3"], false)],
+        ("C18", Tier::Thorough) => vec![
+            ("c18", 6, 24, &["0.01", "0.1", "0.5"], false),
+            ("c18all", 3, 16, &["0.01", "0.5"], false),
+            ("c18big", 6, 16, &["0.1", "0.5"], false),
+        ],
         ("C02", Tier::Thorough) => vec![("c02", 4, 32, &["0.01"], false)],
         ("C03", Tier::Thorough) => vec![("c03", 4, 32, &["0.01"], false)],
         ("C09", Tier::Thorough) => vec![("c09", 4, 8, &["0.01"], true)],
